@@ -290,8 +290,8 @@ PROPERTIES["C10"] = dict(
     level_note=("Only the named kernels: JUMBF BoxReader::read_header and format sniffing (Kani), BMFF BoxHeaderLite::read, read_ftyp_box (24/32-byte "
                 "streams and one 300/600-byte stream for the brand loop) and the small BMFF seek/skip helpers, and the JUMBF box readers "
                 "BoxReader::read_desc_box, read_json_box, read_cbor_box with read_to_vec (40/64-byte streams, every start position, every declared "
-                "u64 size) (Engine Z over an in-memory stream model; the Kani harnesses for them time out), the PNG chunk "
-                "scanner (Kani, thorough). Most of the property -- nesting limits, decompression bombs, CBOR/COSE/"
+                "u64 size) (Engine Z over an in-memory stream model; the Kani harnesses for them -- c10_bmff_ftyp_total, c10_png_chunk_scan_total -- "
+                "time out after 30 min and are no longer run; the PNG chunk scanner is executed from source in C07/C08/C09/C12). Most of the property -- nesting limits, decompression bombs, CBOR/COSE/"
                 "ASN.1/XML/ID3 parsing, allocation and time budgets, release-profile wrapping -- cannot be executed symbolically here and is "
                 "outside the claim. Trusted: Kani, CBMC, CaDiCaL."),
     scope="BoxReader::read_header, read_desc_box, read_json_box, read_cbor_box, unread_bytes; io_utils read_to_vec; jumbf_io::container_from_stream; bmff_io BoxHeaderLite::read, read_ftyp_box, read_box_header_ext, meta_box_lacks_fullbox_header, _skip_bytes, skip_bytes_to; png_io get_png_chunk_positions; over Cursor<&[u8]>",
@@ -305,10 +305,6 @@ PROPERTIES["C10"] = dict(
           kernel=["BoxReader::read_header"]),
         H("c10::c10_format_sniff_total", unwind=20, timeout=900, what="all streams of 0..=16 bytes", bounds="16 bytes; --unwind 20",
           kernel=["jumbf_io::container_from_stream"]),
-        H("c10::c10_bmff_ftyp_total", unwind=34, timeout=1800, tiers=T, what="all streams of 0..=32 bytes (declared sizes up to u64::MAX)",
-          bounds="32 bytes; --unwind 34", kernel=["bmff_io::read_ftyp_box"]),
-        H("c10::c10_png_chunk_scan_total", unwind=34, timeout=1800, tiers=T, stubbing=False,
-          what="PNG signature + all continuations of 0..=24 bytes", bounds="32 bytes; --unwind 34", kernel=["png_io::get_png_chunk_positions"]),
     ],
 )
 
@@ -455,7 +451,7 @@ PROPERTIES["C07"] = dict(
                 "manifest chunk all symbolic), the store is an arbitrary byte string.  z3 decides for ALL such assets and stores that write_cai "
                 "succeeds and read_cai on the written bytes returns exactly the store (read_cai refuses more than one caBX, so writing replaces), "
                 "and that remove_cai_store_from_stream succeeds, leaves no manifest and an asset the scanner still accepts."),
-    level_note=("PNG only.  Assets of 8 + 50 (quick) / 62 (thorough) bytes = up to 4 / 5 chunks; stores up to 3 / 4 bytes, and stores up to 16 / 40 bytes "
+    level_note=("PNG only.  Assets of 8 + 50 (quick) / 54 (thorough) bytes = up to 4 chunks; stores up to 3 / 4 bytes, and stores up to 16 / 40 bytes "
                 "with arbitrary content on a two-chunk asset.  The second write of a "
                 "write/write sequence is covered because the input may already carry a manifest chunk anywhere after IHDR."),
     scope=_PNG_SCOPE, outside=_PNG_OUT, assumptions=_PNG_ASSUME, harnesses=[],
